@@ -1,6 +1,7 @@
 import Mkdb.Proofs.Tree
 import Mkdb.Proofs.Forest
 import Mkdb.Proofs.RefineScan
+import Mkdb.Proofs.RefineInsert
 /-!
 # C11 — the on-disk B+ tree keeps its shape invariants
 
@@ -111,3 +112,48 @@ theorem C11_heap_lookup_finds_every_key (s : Store) (t : Levels) (nf : Nat) (hH 
   findLeaf_finds s t nf hH hI hF hdepth c hc
 
 end Mkdb.Refine
+
+namespace Mkdb.Store
+open Mkdb.Tree Mkdb.Page
+
+/-- **C11.heap_insert_is_levels_insert** (the refinement that carries C01/C11 from the levels model to
+the heap model, for every store, every tree depth up to the fuel bound and every insert):
+whenever the page heap holds a well-formed tree `t` and the levels insert succeeds with `t'`, the
+heap insert - `insertLeaf` / `insertInternal` with their leaf splits, separator propagation,
+internal splits and root growth on pages addressed by offset - returns the root of `t'`, leaves the
+heap holding `t'`, which is well formed again, advances the allocation frontier exactly as the
+levels model says, and leaves every other tree in the file as it was. -/
+theorem C11_heap_insert_is_levels_insert (s : Store) (t : Levels) (key lsn : Nat) (value : Bytes)
+    (hH : Holds s t) (hI : Inv t s.hdr.nextFree) (hdepth : t.inner.length ≤ treeFuel)
+    (t' : Levels) (nf' : Nat) (h : insertAppend t key lsn value s.hdr.nextFree = .ok (t', nf')) :
+    ∃ s', insertKeyHeap ⟨rootOff t⟩ key lsn value s = .ok ⟨rootOff t'⟩ s' ∧
+      Holds s' t' ∧ Inv t' s'.hdr.nextFree ∧ s'.hdr.nextFree = nf' ∧ s.hdr.nextFree ≤ s'.hdr.nextFree ∧
+      ∀ u, Holds s u → (∀ o ∈ offs u, o < s.hdr.nextFree ∧ o ∉ offs t) → Holds s' u :=
+  insertKeyHeap_refines_forest s t key lsn value hH hI hdepth t' nf' h
+
+/-- **C11.heap_insert_refusals**: a duplicate key or an oversized row is refused by the heap insert
+exactly when the levels insert refuses it, and nothing the engine can see changes. -/
+theorem C11_heap_insert_refusals (s : Store) (t : Levels) (key lsn : Nat) (value : Bytes)
+    (hH : Holds s t) (hI : Inv t s.hdr.nextFree) (hdepth : t.inner.length ≤ treeFuel) :
+    (insertAppend t key lsn value s.hdr.nextFree = .error .keyExists →
+      ∃ s', insertKeyHeap ⟨rootOff t⟩ key lsn value s = .err .keyExists s' ∧ Holds s' t ∧ ∀ off, view s' off = view s off) ∧
+    (insertAppend t key lsn value s.hdr.nextFree = .error .rowTooLarge →
+      ∃ s', insertKeyHeap ⟨rootOff t⟩ key lsn value s = .err .rowTooLarge s' ∧ Holds s' t ∧ ∀ off, view s' off = view s off) := by
+  refine ⟨fun h => ?_, fun h => ?_⟩
+  · obtain ⟨s', e, hh, _, hv⟩ := insertKeyHeap_refines_keyExists s t key lsn value hH hI hdepth h
+    exact ⟨s', e, hh, hv⟩
+  · obtain ⟨s', e, hh, _, hv⟩ := insertKeyHeap_refines_rowTooLarge s t key lsn value hH hI hdepth h
+    exact ⟨s', e, hh, hv⟩
+
+/-- **C11.cross_check_never_fires**: the run-time comparison of the two models inside `insertKey`
+(`ghostAgrees`) is provably true on well-formed trees: it is a redundancy, kept as a test of the
+proof's hypotheses on the states the implementation actually reaches. -/
+theorem C11_cross_check_never_fires (s : Store) (t : Levels) (key lsn : Nat) (value : Bytes)
+    (hH : Holds s t) (hI : Inv t s.hdr.nextFree) (hdepth : t.inner.length + 2 ≤ treeFuel)
+    (hres : (∃ r, insertAppend t key lsn value s.hdr.nextFree = .ok r) ∨
+      insertAppend t key lsn value s.hdr.nextFree = .error .keyExists ∨
+      insertAppend t key lsn value s.hdr.nextFree = .error .rowTooLarge) :
+    insertKey ⟨rootOff t⟩ key lsn value s = insertKeyHeap ⟨rootOff t⟩ key lsn value s :=
+  insertKey_eq_insertKeyHeap s t key lsn value hH hI hdepth hres
+
+end Mkdb.Store
